@@ -33,9 +33,11 @@ type vfC04Case struct {
 	BulkLen   int
 	ValSeed   uint64     // value_i = stretch(sha256(ValSeed,i))
 	DupOf     int        // >=0: key index duplicated at the end (unsupported)
+	DupDiff   bool       // the duplicate carries another value than the first insert (then a sealed index has lost one of the two)
 	PermSeed  uint64     // second insertion order
 	Meta      []vfC04KV  // metadata pairs (besides none)
 	Shape     string
+	Collide   bool       // Keys ends with two keys of one bucket that collide in hash domain 0
 }
 
 func vfC04derive(seed uint64, i int, n int) []byte {
@@ -105,7 +107,11 @@ func vfC04build(dir string, c *vfC04Case, keys [][]byte, order []int, tag string
 		}
 	}
 	if c.DupOf >= 0 && c.DupOf < len(keys) {
-		if err := b.Insert(keys[c.DupOf], vfC04derive(c.ValSeed, c.DupOf, c.ValueSize)); err != nil {
+		vi := c.DupOf
+		if c.DupDiff {
+			vi = len(keys) + 1
+		}
+		if err := b.Insert(keys[c.DupOf], vfC04derive(c.ValSeed, vi, c.ValueSize)); err != nil {
 			return nil, fmt.Errorf("Insert(dup): %w", err)
 		}
 	}
@@ -124,6 +130,8 @@ func vfC04build(dir string, c *vfC04Case, keys [][]byte, order []int, tag string
 type vfC04Result struct {
 	sealed     bool
 	maxBucket  int
+	dupBucket  int // population (without the duplicate) of the bucket that receives the duplicate
+	pairBucket int // population of the bucket of the colliding pair
 	numBuckets int
 }
 
@@ -161,6 +169,12 @@ func vfC04eval(c *vfC04Case) (res vfC04Result, verr error) {
 			res.maxBucket = p
 		}
 	}
+	if c.DupOf >= 0 && c.DupOf < n {
+		res.dupBucket = pop[h.BucketHash(keys[c.DupOf])]
+	}
+	if c.Collide && len(c.Keys) >= 2 {
+		res.pairBucket = pop[h.BucketHash(c.Keys[len(c.Keys)-1])]
+	}
 	mustSucceed := supported && res.maxBucket <= 11000
 
 	var raw1 []byte
@@ -179,6 +193,9 @@ func vfC04eval(c *vfC04Case) (res vfC04Result, verr error) {
 		return res, nil // building failed with an error: allowed for unsupported / over-full input
 	}
 	res.sealed = true
+	if c.DupOf >= 0 && c.DupDiff {
+		return res, fmt.Errorf("key #%d (len %d) was inserted twice with two different values and Seal returned nil (n=%d, declared=%d, %d buckets): one of the two values is lost", c.DupOf, len(keys[c.DupOf]), n, c.Declared, nb)
+	}
 	// Seal returned nil: every inserted key must be answered exactly.
 	check := func(raw []byte, tag string) error {
 		db, err := Open(bytes.NewReader(raw))
@@ -245,7 +262,7 @@ func vfC04eval(c *vfC04Case) (res vfC04Result, verr error) {
 	return res, nil
 }
 
-var vfC04Shapes = []string{"small", "small", "small", "onebucket-adversarial", "longkeys", "bigvalue", "declared-low", "declared-high", "dup", "meta", "key64k", "val253", "emptykey"}
+var vfC04Shapes = []string{"small", "small", "small", "onebucket-adversarial", "collide24", "dup", "longkeys", "bigvalue", "declared-low", "declared-high", "dup", "meta", "key64k", "val253", "emptykey"}
 
 func vfC04gen(t *rapid.T, bulkOK bool) *vfC04Case {
 	c := &vfC04Case{DupOf: -1}
@@ -321,7 +338,53 @@ func vfC04gen(t *rapid.T, bulkOK bool) *vfC04Case {
 			c.Keys = kept
 		}
 	case "dup":
+		// the duplicate among many keys, among very few, or alone in its bucket (over-declared count)
+		switch rapid.IntRange(0, 3).Draw(t, "dupKind") {
+		case 1:
+			c.Keys = c.Keys[:min(len(c.Keys), rapid.IntRange(1, 3).Draw(t, "dupN"))]
+		case 2:
+			c.Declared = rapid.IntRange(10001, 100000).Draw(t, "dupDeclared")
+		case 3:
+			c.Keys = c.Keys[:min(len(c.Keys), rapid.IntRange(1, 3).Draw(t, "dupN"))]
+			c.Declared = len(c.Keys) * rapid.IntRange(1, 20).Draw(t, "dupDeclMul")
+		}
 		c.DupOf = rapid.IntRange(0, len(c.Keys)-1).Draw(t, "dupOf")
+		c.DupDiff = rapid.IntRange(0, 3).Draw(t, "dupDiff") > 0
+	case "collide24":
+		// two distinct keys of one bucket whose 24-bit entry hashes are equal in hash domain 0 (the domain the
+		// miner tries first): found by a birthday search with the package's own hash functions. They are stored
+		// alone, or next to the drawn keys; the builder has to move on to another domain.
+		switch rapid.IntRange(0, 2).Draw(t, "collKind") {
+		case 0:
+			c.Keys = nil
+		case 1:
+			c.Keys = c.Keys[:min(len(c.Keys), rapid.IntRange(0, 3).Draw(t, "collN"))]
+			c.Declared = rapid.IntRange(10001, 60000).Draw(t, "collDeclared")
+		}
+		if len(c.Keys) == 0 && c.Declared < 2 {
+			c.Declared = 2
+		}
+		nb := (c.Declared + targetEntriesPerBucket - 1) / targetEntriesPerBucket
+		h := Header{NumBuckets: uint32(max(nb, 1))}
+		bh := BucketHeader{HashDomain: 0, HashLen: HashSize}
+		cseed := rapid.Uint64().Draw(t, "collSeed")
+		first := map[uint64]int{}
+		for i := 0; i < 400000; i++ {
+			k := vfC04derive(cseed, i, 12)
+			id := uint64(h.BucketHash(k))<<32 | bh.Hash(k)
+			if j, ok := first[id]; ok {
+				a := vfC04derive(cseed, j, 12)
+				if !seen[string(a)] && !seen[string(k)] {
+					c.Keys = append(c.Keys, a, k)
+					c.Collide = true
+				}
+				break
+			}
+			first[id] = i
+		}
+		if c.Declared < len(c.Keys) && rapid.Bool().Draw(t, "collFix") {
+			c.Declared = len(c.Keys)
+		}
 	case "meta":
 		nm := rapid.SampledFrom([]int{1, 2, 5, 255}).Draw(t, "nmeta")
 		for i := 0; i < nm; i++ {
@@ -364,6 +427,15 @@ func vfC04classes(c *vfC04Case, r vfC04Result) (bool, []string) {
 	} else {
 		cls = append(cls, "error-path")
 	}
+	if c.DupOf >= 0 && r.dupBucket == 1 {
+		cls = append(cls, "dup-in-bucket-of-two")
+	}
+	if c.Collide {
+		cls = append(cls, "domain0-colliding-pair")
+		if r.pairBucket == 2 {
+			cls = append(cls, "domain0-colliding-pair-alone-in-bucket")
+		}
+	}
 	if c.ValueSize >= 200 {
 		cls = append(cls, "valueSize>=200")
 	}
@@ -390,7 +462,7 @@ func vfC04sample(c *vfC04Case, r vfC04Result) map[string]any {
 func TestVfC04Sized(t *testing.T) {
 	run := vfh.Begin("C04", "sized")
 	defer run.End(t)
-	run.Require("shape:small", "shape:onebucket-adversarial", "shape:longkeys", "shape:dup", "shape:meta", "shape:key64k", "shape:val253", "multi-bucket", "error-path", "sealed")
+	run.Require("shape:small", "shape:onebucket-adversarial", "dup-in-bucket-of-two", "domain0-colliding-pair-alone-in-bucket", "shape:longkeys", "shape:dup", "shape:meta", "shape:key64k", "shape:val253", "multi-bucket", "error-path", "sealed")
 	// regression tier: committed minimal cases of confirmed findings
 	for _, p := range vfh.ReplayFiles("C04", "sized") {
 		var c vfC04Case
